@@ -1721,7 +1721,14 @@ class Unit:
             elif '[' in txt and self.strip_tmp(ks[0])['kind'] == 'InitListExpr':
                 init = '{' + ', '.join(self.expr(x) for x in self.kids(self.strip_tmp(ks[0]))) + '}'
             else: init = self.expr(ks[0])
-            if (self.pre or self.post) and '[' not in txt and not is_ref:
+            if is_ref and (self.pre or self.post):
+                # a reference bound to a temporary: the temporary lives as long as the reference (lifetime extension), so it is
+                # declared in the enclosing scope, not in a block of its own
+                for st in self.pre: self.w(p + st)
+                self.w(p + '%s = %s;' % (txt, init))
+                for st in self.post: self.scopes[-1]['vars'].append(st)
+                self.pre = []; self.post = []; self.last_calls = []
+            elif (self.pre or self.post) and '[' not in txt and not is_ref:
                 # the initialiser needs temporaries (printed in their own block): the variable itself is declared before that block
                 self.w(p + '%s;' % txt.replace('const ', ''))
                 self.flush_expr_stmt('%s = %s;' % (name, init), p)
